@@ -142,6 +142,10 @@ SHARED = {
 for _k, _v in SHARED.items():
     PROPS[_k]["shared_streams"] = _v
 
+# non-vacuity floors: the substitution predicates of C03 answer "not applicable" for cases that are not <= 5 / <= 4
+# substitutions of a valid string; at least this many cases per tier must have been applicable (seed 1 quick: ~5000 each)
+PROPS["C03"]["min_prop_ok"] = {"quick": {"csub": 1000, "bsub": 1000}, "thorough": {"csub": 1000, "bsub": 1000}}
+
 # C03: the two finite independence enumerations are evaluated by compiled code (native_decide), see DESIGN section 3
 PROPS["C03"]["allow_axiom_regex"] = r"^Bch\.Proofs\.C03Enum\.(cashaddr|bech32)_slices\._native\.native_decide\.ax_"
 PROPS["C03"]["level_note"] = ("Trusted: Lean kernel + propext/Classical.choice/Quot.sound, PLUS the Lean compiler/runtime for exactly two facts "
